@@ -61,9 +61,10 @@ def tree_hash(root, extra_files=()):
         p = os.path.join(root, f)
         if os.path.exists(p):
             files.append(p)
+    extra = set(extra_files)
     files.extend(extra_files)
     for p in files:
-        h.update(os.path.relpath(p, root).encode())
+        h.update((os.path.basename(p) if p in extra else os.path.relpath(p, root)).encode())
         h.update(b"\0")
         with open(p, "rb") as fh:
             h.update(fh.read())
@@ -74,17 +75,21 @@ def tree_hash(root, extra_files=()):
 def export_facts(crate_dir, crate_name, profile, label):
     """run the driver over `crate_dir`; returns the path of the cached fact file"""
     ensure_driver()
-    key = tree_hash(crate_dir, extra_files=[DRIVER])[:20]
     cache_dir = os.environ.get("VERIF_FACTS_DIR") or os.path.join(OUT, "facts")
     os.makedirs(cache_dir, exist_ok=True)
-    target = os.path.join(cache_dir, "%s-%s-%s.jsonl" % (label, key, profile))
-    lock_path = os.path.join(cache_dir, ".lock-%s-%s" % (label, profile))
-    with open(lock_path, "w") as lock:
-        fcntl.flock(lock, fcntl.LOCK_EX)
-        if os.path.exists(target) and os.path.getsize(target) > 0:
-            return target, True
-        tmp = tempfile.mkdtemp(prefix="discv5-verif-")
-        try:
+    # The tree is snapshotted first and both the cache key and the compilation use the snapshot: facts can then never be filed under the
+    # hash of a tree other than the one that was compiled, even if /repo is edited while a check is running.
+    tmp = tempfile.mkdtemp(prefix="discv5-verif-")
+    try:
+        snap = os.path.join(tmp, "snapshot")
+        subprocess.run(["rsync", "-a", "--exclude", "/target", "--exclude", "/.git", crate_dir.rstrip("/") + "/", snap + "/"], check=True)
+        key = tree_hash(snap, extra_files=[DRIVER])[:20]
+        target = os.path.join(cache_dir, "%s-%s-%s.jsonl" % (label, key, profile))
+        lock_path = os.path.join(cache_dir, ".lock-%s-%s" % (label, profile))
+        with open(lock_path, "w") as lock:
+            fcntl.flock(lock, fcntl.LOCK_EX)
+            if os.path.exists(target) and os.path.getsize(target) > 0:
+                return target, True
             facts_out = os.path.join(tmp, "facts")
             os.makedirs(facts_out)
             env = dict(os.environ)
@@ -99,7 +104,7 @@ def export_facts(crate_dir, crate_name, profile, label):
             })
             env.pop("RUSTC_WRAPPER", None)
             cmd = "cargo +nightly check --offline --lib" + (" --release" if profile == "release" else "")
-            r = subprocess.run(cmd, shell=True, cwd=crate_dir, env=env, stdout=subprocess.PIPE,
+            r = subprocess.run(cmd, shell=True, cwd=snap, env=env, stdout=subprocess.PIPE,
                                stderr=subprocess.STDOUT, text=True)
             produced = [f for f in os.listdir(facts_out) if f.startswith(crate_name + "-")]
             if r.returncode != 0 or len(produced) != 1:
@@ -108,8 +113,10 @@ def export_facts(crate_dir, crate_name, profile, label):
                     crate_dir, profile, r.returncode, produced))
             shutil.move(os.path.join(facts_out, produced[0]), target + ".tmp")
             os.replace(target + ".tmp", target)
-        finally:
-            shutil.rmtree(tmp, ignore_errors=True)
+    finally:
+        shutil.rmtree(tmp, ignore_errors=True)
+    with open(lock_path, "w") as lock:
+        fcntl.flock(lock, fcntl.LOCK_EX)
         # prune old cache entries of this label/profile (keep the 4 newest)
         olds = sorted((f for f in os.listdir(cache_dir)
                        if f.startswith(label + "-") and f.endswith("-%s.jsonl" % profile)),
